@@ -117,7 +117,7 @@ class C10(Check):
         "ECU": "ModelECU = RandomUDSServer subclass with drawn services table; handle_client real",
     }
     shrink_lists: list[str] = []
-    quick_runs = 320
+    quick_runs = 800
     thorough_runs = 150000
     chunk = 2
     smoke_runs = 3
